@@ -78,6 +78,11 @@ class TplExec(mirpool.PoolExec):
             S.events.append(("parse", m.group(1)))
             st = self.sym_struct(m.group(1), "pis.")
             return [(S, V("enum", ty="Result", disc=z3.If(ok, 0, 1), payload={"Ok": [st], "Err": [OPQ("parse error")]}))]
+        m = re.search(r"(verify_dummy_leaf_template|verify_dummy_private_batch_template)$", c)
+        if m:
+            ok = self.fresh("template_valid", "bool")
+            S.events.append(("validate", m.group(1), ok))
+            return [(S, V("enum", ty="Result", disc=z3.If(ok, 0, 1), payload={"Ok": [V("tuple", items=[])], "Err": [OPQ("validation error")]}))]
         if re.search(r"<BytesDigest as Default>::default$", c):
             return [(S, V("digest", v=ZERO))]
         m = re.search(r"<BytesDigest as PartialEq>::(ne|eq)$", c)
@@ -92,11 +97,17 @@ class TplExec(mirpool.PoolExec):
             return [(S, V("enum", ty="Result", disc=z3.If(ok, 0, 1), payload={"Ok": [V("tuple", items=[])], "Err": [OPQ("verify error")]}))]
         if re.search(r"anyhow::Context<.*>>::(with_)?context::<", c) or re.search(r"Result::<.*>::map_err::<", c):
             r = args[0]
+            if r.kind != "enum" and getattr(self, "havoc", False):
+                return [(S, r)]
             if r.kind != "enum":
                 raise Unsupported("context on " + r.kind)
             return [(S, V("enum", ty="Result", disc=r.disc, payload={"Ok": r.payload.get("Ok", []), "Err": [OPQ("error with context")]}))]
         if re.search(r" as Try>::branch$", c):
             r = args[0]
+            if r.kind != "enum" and getattr(self, "havoc", False):
+                d = self.fresh("havoc_try")
+                self.dom.append(z3.Or(d == 0, d == 1))
+                return [(S, V("enum", ty="ControlFlow", disc=d, payload={"Continue": [OPQ("value")], "Break": [OPQ("residual")]}))]
             if r.kind != "enum":
                 raise Unsupported("Try::branch on " + r.kind)
             resid = V("enum", ty="Result", disc=z3.IntVal(1), payload={"Err": r.payload.get("Err", [OPQ()])})
@@ -169,3 +180,17 @@ class TplExec(mirpool.PoolExec):
         self.run_fn(fn, S, sink)
         self.paths = sink
         return sink
+
+
+    def run_caller(self, name_pattern):
+        """over-approximating run (havoc mode) of a function that accepts a padding template"""
+        self.havoc = True
+        cands = [(name, f) for name, fl in self.fns.items() for f in fl if re.search(name_pattern, name) and "closure" not in name]
+        if len(cands) != 1:
+            raise Unsupported(f"{name_pattern}: {len(cands)} candidates in the MIR dump")
+        name, fn = cands[0]
+        env = {idx: OPQ(f"param {idx}") for idx, _ in fn.params}
+        S = State(env, V("struct", fields={}), {}, [], [], [])
+        sink = []
+        self.run_fn(fn, S, sink)
+        return name, sink
